@@ -410,7 +410,8 @@ type wRun struct {
 	rw       *recWriter
 	data     []byte   // the data stream handed to Write calls (bgzf) / the reference uncompressed stream (bam)
 	results  []string // per op: ok | err | closed | hang | panic
-	script   []string // model script tokens
+	script   []string // model script tokens (from the harness's own block-splitting simulation wSim)
+	concrete []string // the concrete script by payload sizes, for the Lean abstraction c12.abstract
 	chunks   []wChunk
 	hang     *hangInfo
 	panicked string
@@ -524,17 +525,23 @@ func wRunScript(in wInput) *wRun {
 		case "w":
 			b := r.data[pos : pos+op.N]
 			pos += op.N
-			tok = fmt.Sprintf("w%d", sim.write(op.N))
+			if closedOK {
+				tok = "w0" // refused with ErrClosed: no block
+			} else {
+				tok = fmt.Sprintf("w%d", sim.write(op.N))
+			}
+			r.concrete = append(r.concrete, fmt.Sprintf("w%d", op.N))
 			r.rw.mu.Lock()
 			r.rw.offered += op.N
 			r.rw.mu.Unlock()
 			f = func() { _, err = bg.Write(b) }
 		case "f":
-			if sim.flush() {
+			if !closedOK && sim.flush() {
 				tok = "f1"
 			} else {
 				tok = "f0"
 			}
+			r.concrete = append(r.concrete, "f")
 			f = func() { err = bg.Flush() }
 		case "wt":
 			tok = "wt"
@@ -549,6 +556,9 @@ func wRunScript(in wInput) *wRun {
 			f = func() { err = bg.Close() }
 		default:
 			panic("bad op " + op.K)
+		}
+		if op.K == "wt" || op.K == "c" {
+			r.concrete = append(r.concrete, op.K)
 		}
 		r.script = append(r.script, tok)
 		r.rw.event("C" + tok)
@@ -866,6 +876,7 @@ func wRunBam(in wInput) *wRun {
 	r.rw.mu.Lock()
 	r.rw.offered = r.headerLen
 	r.rw.mu.Unlock()
+	r.concrete = append(r.concrete, fmt.Sprintf("w%d", r.headerLen), "f", "wt")
 	r.script = append(r.script, fmt.Sprintf("w%d", sim.write(r.headerLen)))
 	if sim.flush() {
 		r.script = append(r.script, "f1")
@@ -913,6 +924,7 @@ func wRunBam(in wInput) *wRun {
 			r.rw.mu.Lock()
 			r.rw.offered = end
 			r.rw.mu.Unlock()
+			r.concrete = append(r.concrete, fmt.Sprintf("w%d", end-start))
 			r.script = append(r.script, fmt.Sprintf("w%d", sim.write(end-start)))
 			f = func() { err = bw.Write(rec) }
 		case "c":
@@ -920,6 +932,7 @@ func wRunBam(in wInput) *wRun {
 				sim.submit()
 			}
 			closed = true
+			r.concrete = append(r.concrete, "c")
 			r.script = append(r.script, "c")
 			f = func() { err = bw.Close() }
 		default:
@@ -1011,6 +1024,12 @@ func wJudge(c *ctx, r *wRun, d *Driver, impl *[]string, ins *[]wInput) {
 	}
 	if r.hang != nil || r.newWriterErr != "" && len(r.script) == 0 {
 		return
+	}
+	// the harness's script abstraction (wSim) against the Lean one (Hts.Model.WriterCompose.absScript)
+	if len(r.concrete) == len(r.script) && len(r.concrete) > 0 {
+		d.add("c12.abstract %s", joinOr(r.concrete))
+		*impl = append(*impl, joinOr(r.script))
+		*ins = append(*ins, in)
 	}
 	// trace inclusion
 	ev, out, eof, anyFail := r.trace()
